@@ -104,7 +104,10 @@ def _complete_lines(path):
         k = full.rfind(" = ")
         if k < 0:
             continue
-        yield pid, name, full[:k].rstrip(), full[k + 3:].strip()
+        result = full[k + 3:].strip()
+        if result.startswith("?"):
+            continue            # interrupted and restarted by the kernel (ERESTARTSYS) / process gone
+        yield pid, name, full[:k].rstrip(), result
 
 
 def _num(s, default=0):
@@ -153,6 +156,8 @@ def parse_strace(path):
     out = {}
     cur = {}        # launcher tid -> state of the launch in progress
     bychild = {}    # child pid -> state
+    orphans = []    # lines of pids not (yet) known as a child: with CLONE_VFORK the parent's clone line
+                    # completes only after the child's execve, i.e. after all of the child's lines
     for pid, name, args, res in _complete_lines(path):
         if name == "faccessat" and "@@" in args:
             m = re.search(r'"@@(case|started|end|cb)-(\d+)"', args)
@@ -164,6 +169,7 @@ def parse_strace(path):
                       "childdone": False, "mapfds": set()}
                 cur[pid] = st
                 out[cid] = st
+                orphans = []
             elif kind == "cb" and pid in cur:
                 cur[pid]["parent"].append({"n": "callback", "v": 0, "ok": True})
             elif kind == "started" and pid in cur:
@@ -186,10 +192,18 @@ def parse_strace(path):
                 if ok and cp > 0:
                     st["childpid"] = cp
                     bychild[cp] = st
+                    for (opid, oname, oargs, ores) in orphans:
+                        if opid == cp and not st["childdone"]:
+                            ev = _child_event(oname, oargs, ores)
+                            st["child"].append(ev)
+                            if ev["n"] == "execve" and ev["ok"]:
+                                st["childdone"] = True
+                    orphans = []
             elif name == "close":
                 fd = _num(args.rstrip(")"))
                 if fd == st["p1"]:
                     st["parent"].append({"n": "close_p1", "v": 0, "ok": ok})
+                    st["p1"] = -1            # the number is reused for the id-map files
                 st["mapfds"].discard(fd)
             elif name == "openat":
                 m = re.search(r'"/proc/\d+/(uid_map|gid_map|setgroups)"', args)
@@ -208,6 +222,10 @@ def parse_strace(path):
                 st["parent"].append({"n": "wait4", "v": 0, "ok": ok})
             continue
         st = bychild.get(pid)
+        if st is None and cur:
+            orphans.append((pid, name, args, res))
+            if len(orphans) > 4000:
+                del orphans[:2000]
         if st is not None and not st["childdone"]:
             ev = _child_event(name, args, res)
             st["child"].append(ev)
